@@ -32,7 +32,7 @@ static void critical()
     ++occ; ++entered;
     VASSERT( occ == 1, "at most one thread inside the critical section" );
     int t = shared_counter;
-    marker.load( atomics::memory_order_relaxed );           // other threads may run here
+    marker.fetch_add( 1, atomics::memory_order_relaxed );           // other threads may run here
     VASSERT( occ == 1, "still alone in the critical section after a context switch" );
     shared_counter = t + 1;
     --occ;
@@ -51,7 +51,7 @@ static void worker()
             do_lock();
             VASSERT( occ == 0, "nested lock() by the owner: nobody else is inside" );
             do_unlock();               // inner unlock must NOT release the lock
-            marker.load( atomics::memory_order_relaxed );
+            marker.fetch_add( 1, atomics::memory_order_relaxed );
         }
 #endif
         critical();
